@@ -136,6 +136,56 @@ def load_prop(prop):
 # --------------------------------------------------------------------------
 # shard side
 
+# ---- logical CPU budget for one monitored operation -------------------------------------------------------
+# Code stuck inside a C extension (a backtracking regular expression) cannot be interrupted by a Python-level
+# alarm.  cpu_budget() moves the shard's RLIMIT_CPU soft limit to "CPU time used so far + seconds" and leaves a
+# witness in a memory-mapped file; when the kernel kills the shard with SIGXCPU the driver turns the witness into
+# a violation.  CPU time, not wall-clock: a loaded machine does not trip it.
+_PROGRESS = {'mm': None}
+_PROGRESS_SIZE = 1 << 16
+
+
+def progress_init(path):
+    import mmap
+    with open(path, 'wb') as f:
+        f.write(b'\0' * _PROGRESS_SIZE)
+    fd = os.open(path, os.O_RDWR)
+    _PROGRESS['mm'] = mmap.mmap(fd, _PROGRESS_SIZE)
+    os.close(fd)
+
+
+def cpu_budget(seconds, witness):
+    mm = _PROGRESS['mm']
+    if mm is None:
+        return
+    data = json.dumps(jsonable(witness)).encode('utf-8')
+    if len(data) > _PROGRESS_SIZE - 8:
+        data = json.dumps({'truncated': True, 'head': data[:2000].decode('utf-8', 'replace')}).encode('utf-8')
+    mm[0:8] = len(data).to_bytes(8, 'big')
+    mm[8:8 + len(data)] = data
+    used = time.process_time()
+    hard = resource.getrlimit(resource.RLIMIT_CPU)[1]
+    resource.setrlimit(resource.RLIMIT_CPU, (int(used) + int(seconds) + 1, hard))
+
+
+def cpu_budget_off():
+    if _PROGRESS['mm'] is not None:
+        hard = resource.getrlimit(resource.RLIMIT_CPU)[1]
+        resource.setrlimit(resource.RLIMIT_CPU, (hard, hard))
+
+
+def _read_progress(path):
+    try:
+        with open(path, 'rb') as f:
+            raw = f.read()
+        n = int.from_bytes(raw[:8], 'big')
+        if 0 < n <= len(raw) - 8:
+            return json.loads(raw[8:8 + n].decode('utf-8'))
+    except (OSError, ValueError):
+        pass
+    return None
+
+
 def _set_limits():
     try:
         resource.setrlimit(resource.RLIMIT_AS, (MEM_LIMIT, MEM_LIMIT))
@@ -150,8 +200,14 @@ def shard_main(prop, spec_path, out_path):
     rec = Rec(prop, spec)
     t0 = time.time()
     try:
+        import vmon.core as _vc           # property modules import vmon.core, this file runs as __main__
+        _vc.progress_init(out_path + '.progress')
+    except OSError:
+        pass
+    try:
         mod = load_prop(prop)
         mod.run_shard(spec, rec)
+        _vc.cpu_budget_off()
     except MemoryError:
         rec.inconc('shard hit MemoryError (RLIMIT_AS) outside a monitored case')
     except BaseException as e:  # harness failure is inconclusive, not a verdict
@@ -193,6 +249,18 @@ def _run_one(prop, spec, workdir, idx, env):
                 res = json.load(f)
         except ValueError:
             res = None
+    if res is None and rc == -24:          # SIGXCPU: a monitored operation exceeded its CPU budget
+        w = _read_progress(out_path + '.progress')
+        if w is not None:
+            mech = 'cpu-budget-exceeded:%s' % w.get('family', 'operation')
+            res = {'evaluations': 1, 'hashes': [], 'counters': {'budget.cpu_kills': 1}, 'samples': [],
+                   'violations': [{'mech': mech, 'what': '%s did not finish within its CPU budget of %s s (the shard was stopped by '
+                                   'the kernel with SIGXCPU): %s' % (w.get('what', 'the operation'), w.get('seconds', '?'),
+                                                                     json.dumps(w.get('replay'))[:300]),
+                                   'replay': w.get('replay') or {}}],
+                   'viol_counts': {mech: 1}, 'inconclusive': ['shard stopped at its CPU budget; the rest of its plan did not run'],
+                   'notes': {}}
+            rc = 0
     return idx, rc, res, output, time.time() - t0
 
 
